@@ -408,6 +408,38 @@ def clause6_wrappers(ctx, P):
                % (wname, cname), witness=bad.witness() if bad else None)
 
 
+def clause8_key_copy(ctx, P):
+    """the existence test of add looks the path up as sent, the table then keeps duplicate_string(path): 'at most one element per
+    path' needs the stored key to be the WHOLE path.  duplicate_string() measures with strlen(), allocates that + 1 and copies
+    that much - no cap, no other terminator"""
+    f = P.fn("jet_string.c:duplicate_string")
+    s0 = ("param", 0, f.params[0]["name"])
+    calls = [c for c in f.all_insts() if c.op == "call" and c.callee and not P.srcname_of(c.callee).startswith("llvm.")]
+    names = [P.srcname_of(c.callee) for c in calls]
+    whole = None
+    for c in calls:
+        if P.srcname_of(c.callee) == "strlen" and P.term(f, c.a[0]) == s0:
+            whole = ("op", "add", (P.term(f, c.id), ("const", 1)))
+    ok = whole is not None
+    why = "the length is not strlen(s)"
+    if ok:
+        al = [c for c in calls if P.srcname_of(c.callee) in ("cjet_malloc", "cjet_calloc", "malloc")]
+        ok = len(al) == 1 and whole in [P.term(f, a) for a in al[0].a]
+        why = "the allocation is not strlen(s) + 1 bytes"
+    if ok:
+        cp = [c for c in calls if P.srcname_of(c.callee) in ("strncpy", "memcpy", "strcpy", "llvm.memcpy")]
+        cp = cp or [c for c in f.all_insts() if c.op == "call" and c.callee and P.srcname_of(c.callee).startswith("llvm.memcpy")]
+        ok = len(cp) == 1 and P.term(f, cp[0].a[1]) == s0 and (P.srcname_of(cp[0].callee) == "strcpy" or P.term(f, cp[0].a[2]) == whole)
+        why = "the copy does not take strlen(s) + 1 bytes from s"
+    if ok:
+        extra = [n for n in names if n in ("memchr", "strnlen", "strchr", "strncat")]
+        ok = not extra
+        why = "the string is also scanned with %s" % ", ".join(extra)
+    ctx.ob("C04.1 R-PAIR", f, "stored-key-is-the-whole-path", ok,
+           "duplicate_string() is not a whole copy of its argument (%s): a long path is stored under a shortened key while add's "
+           "existence test used the full one - the same path can be added twice and the owner's change finds nothing" % why)
+
+
 def run(ctx):
     for cfg in ctx.configs():
         clause6_wrappers(ctx, cfg.P)
@@ -417,3 +449,4 @@ def run(ctx):
         clause3_typing(ctx, cfg.P)
         clause4_commit(ctx, cfg.P, cfg.cg)
         clause5_success_effect(ctx, cfg.P, cfg.cg)
+        clause8_key_copy(ctx, cfg.P)
